@@ -311,6 +311,37 @@ pub struct Suffix {
     pub fsinfo: Option<(bool, bool, bool, u32, u32)>,
     pub remount_tree: Option<Result<LibTree, String>>,
     pub writes_in_suffix: u64,
+    /// per non-root directory P: the names listed through the path "P/.." (same session / after remount)
+    pub dotdot_session: Option<DotDotViews>,
+    pub dotdot_remount: Option<DotDotViews>,
+}
+
+pub type DotDotViews = Vec<(String, Result<Vec<String>, String>)>;
+
+/// what the library shows when a directory is reached through the `..` entry of each of its subdirectories
+pub fn dotdot_views(fs: &Fs, tree: &LibTree) -> DotDotViews {
+    let mut out = Vec::new();
+    for (p, n) in tree {
+        if !n.is_dir {
+            continue;
+        }
+        let path = format!("{}/..", p.trim_start_matches('/'));
+        let r = (|| -> Result<Vec<String>, String> {
+            let d = fs.root_dir().open_dir(&path).map_err(|e| format!("open_dir({path}): {:?}", ek(e)))?;
+            let mut names = Vec::new();
+            for e in d.iter() {
+                let e = e.map_err(|e| format!("iter error in {path}: {:?}", ek(e)))?;
+                let name = e.file_name();
+                if name != "." && name != ".." {
+                    names.push(name);
+                }
+            }
+            names.sort();
+            Ok(names)
+        })();
+        out.push((p.clone(), r));
+    }
+    out
 }
 
 pub struct Exec {
@@ -1507,6 +1538,9 @@ fn boundary<'a>(fs: &'a Fs, slots: &mut Slots<'a>, cx: &mut RunCtx) {
     sx.lib_tree = Some(lib_tree(fs));
     sx.status_mounted = cx.st.borrow().read_vec(0, 512)[if fs.fat_type() == fatfs::FatType::Fat32 { 0x41 } else { 0x25 }];
     sx.writes_in_suffix = cx.st.borrow().n_writes - writes0;
+    if let Some(Ok(t)) = &sx.lib_tree {
+        sx.dotdot_session = Some(dotdot_views(fs, t));
+    }
     cx.ex.suffix = sx;
 }
 
@@ -1757,13 +1791,20 @@ fn final_suffix(fs: Fs, cx: &mut RunCtx) {
     let r = guarded(|| match mount(MemDev::new(st.clone()), cfg, &ctr) {
         Ok(fs2) => {
             let t = lib_tree(&fs2);
+            let dd = t.as_ref().ok().map(|t| dotdot_views(&fs2, t));
             // a read-only session: forget to avoid any write-back influencing nothing else
             drop(fs2);
-            t
+            t.map(|t| (t, dd))
         }
         Err(e) => Err(format!("remount failed: {:?}", ek(e))),
     });
-    cx.ex.suffix.remount_tree = Some(r.unwrap_or_else(|m| Err(format!("panic in remount listing: {m}"))));
+    match r.unwrap_or_else(|m| Err(format!("panic in remount listing: {m}"))) {
+        Ok((t, dd)) => {
+            cx.ex.suffix.remount_tree = Some(Ok(t));
+            cx.ex.suffix.dotdot_remount = dd;
+        }
+        Err(e) => cx.ex.suffix.remount_tree = Some(Err(e)),
+    }
 }
 
 /// Free-slot room computation on an independently decoded directory (for NotEnoughSpace admissibility).
